@@ -4,7 +4,7 @@ from vlib import core
 from props import poolcommon as pc
 
 MANIFEST = dict(
-    text='Theorems: a pool that is not RUN accepts no apply/map/imap; result and accept handling do not depend on the pool state (results of jobs submitted before close() are kept); close() hands back every slot; outcomes observable before close() survive any continuation; an Apply result is credited to its owner. join() returning, workers reaped and helper threads stopped are validated on real pools on every run (not proved).',
+    text='Theorems: a pool that is not RUN accepts no apply/map/imap; result and accept handling do not depend on the pool state (results of jobs submitted before close() are kept); close() hands back every slot; outcomes observable before close() survive any continuation; an Apply result is credited to its owner. join() returning, workers reaped and helper threads stopped are validated on real pools on every run (not proved). close() in the middle of a supervision pass: no further worker is started and the pool is left closed. Closed crash-free composition (Model/PoolSys.v): with close() at any point every maximal schedule ends, within 6n+1 steps, with every job accepted before close() resolved with its own outcome. Refuted with witnesses (known findings): jobs queued at close() are dropped when the last worker is recycled; multi-part results credited to the first owner.',
     note='Trusted: Coq kernel; Model/Pool.v and Model/Worker.v validated on every run against the real code; real-pool scenarios are timing-dependent validation (generous bounds), not proof. Partial: liveness of join() and the thread census are runtime behaviour; known findings: queued jobs dropped after close() on a recycling pool (D19), result counter credited to the first owner of a map job (D7: join may wait out the 30 s guard).',
     technique='Coq proof over executable pool and worker models + differential correspondence + real-pool validation scenarios',
     ref='5.7',
